@@ -12,9 +12,10 @@ EXTENDS Gen_C18, GoGenModel, FindingsC18
 
 (* one invariant, so that the model's output and the encodings are computed once per state *)
 Judge(modulo) ==
-   LET m == GenAll(gty, gopt)
+   LET Fst == IF ghist = "none" THEN NoFirst ELSE First
+       m == ModelRun(Fst, gty, gopt)
        s2 == m.s
-       c2 == GenComps(gty, gopt)
+       c2 == IF ghist = "shared" THEN MergeComps(GenComps(First, gopt), GenCompsSt(m.st, gopt)) ELSE GenCompsSt(m.st, gopt)
        gvs == GoVals(gty)
        missing == MissingNames(s2, c2) IN
    /\ gvs # <<>>                                      \* Enc is defined for every type of the universe
@@ -23,14 +24,20 @@ Judge(modulo) ==
    /\ UsesTypeNameGen(gopt) => NamesChosen(gty, gopt, s2, c2)
    (* F-C18-6: only with component export and mutually recursive types can a name receive a foreign schema *)
    /\ ForeignCands(gopt, m.st) # {} => (modulo /\ ExportsComponents(gopt) /\ MutualRec(gty))
-   /\ IF missing # {} THEN modulo /\ TngMissing(gty, gopt, missing)          \* F-C18-7
+   /\ IF missing # {} THEN modulo /\ (KnownMissing(gty, gopt, missing)       \* F-C18-7, F-C18-8
+                                      \/ (ghist = "fresh" /\ ReuseMissing(First, gty, gopt, missing)))    \* F-C18-10
       ELSE \A i \in DOMAIN gvs :
               LET v == Enc(gty, gvs[i])
                   fails == Fails(s2, c2, v, <<>>)
                   ref == RefAccepts(s2, c2, v) IN
               /\ ref = ({f \in fails : f.kind # "format"} = {})          \* the two formulations agree
-              /\ IF modulo THEN \A f \in fails : KnownFailure(gty, f) ELSE fails = {}
+              /\ IF modulo THEN \A f \in fails : KnownFailure(gty, f) \/ RootPtrReused(Fst, f) ELSE fails = {}
 
-L2Sound == OptOK => (~Diverges(gty) /\ Judge(FALSE))
-L2SoundModulo == OptOK => IF Diverges(gty) THEN SelfEmbedding(gty) ELSE Judge(TRUE)
+(* the parent-chain cycle detection of the model finds a cycle exactly for the recursive types  *)
+(* (GoTypes!Recursive, structural); with ThrowErrorOnCycle those are refused, all others judged *)
+CycleDetectionExact == ghist = "none" => ModelCycles(gty, gopt) = Recursive(gty, UsesAllFields(gopt))
+Refused == gopt = "throw" /\ Recursive(gty, FALSE)
+L2Sound == OptOK => (~Diverges(gty) /\ CycleDetectionExact /\ (Refused \/ Judge(FALSE)))
+L2SoundModulo == OptOK => IF Diverges(gty) THEN SelfEmbedding(gty) \/ SelfContainer(gty)
+                          ELSE CycleDetectionExact /\ (Refused \/ Judge(TRUE))
 =============================================================================
